@@ -88,6 +88,7 @@ type rvEnv struct {
 	u    *vh.Universe
 	s    *packet.Session
 	conn *vh.RecConn
+	held []rvRA
 }
 
 func newRvEnv() (*rvEnv, error) {
@@ -104,18 +105,37 @@ func newRvEnv() (*rvEnv, error) {
 
 var stackBuf = make([]byte, 1<<18)
 
-func liveLoops() int {
+// liveLoops counts the goroutines created by startRADVS (a goroutine that has not run yet shows only its creator);
+// settled is true when every one of them is parked in the select of its loop, i.e. has made its first send.
+func loopState() (live int, settled bool) {
 	for {
 		n := runtime.Stack(stackBuf, true)
 		if n < len(stackBuf) {
-			// a goroutine that was created and has not run yet shows only its creator
-			return bytes.Count(stackBuf[:n], []byte("created by github.com/irai/packet/handlers/icmp_spoofer.(*Handler6).startRADVS"))
+			settled = true
+			for _, g := range bytes.Split(stackBuf[:n], []byte("\n\n")) {
+				if !bytes.Contains(g, []byte("created by github.com/irai/packet/handlers/icmp_spoofer.(*Handler6).startRADVS")) {
+					continue
+				}
+				live++
+				head := g
+				if i := bytes.IndexByte(g, '\n'); i >= 0 {
+					head = g[:i]
+				}
+				if !bytes.Contains(head, []byte("[select")) || !bytes.Contains(g, []byte("sendAdvertistementLoop")) {
+					settled = false
+				}
+			}
+			return live, settled
 		}
 		stackBuf = make([]byte, 2*len(stackBuf))
 	}
 }
 
-// waitLive waits until the number of loop goroutines is want (10 s at most) and returns the last count.
+func liveLoops() int {
+	n, _ := loopState()
+	return n
+}
+
 // After three waits that ran into the deadline the code under test evidently does not end its loops (or does not start
 // them): later waits are cut to 20 ms, then to a single look, so that the run still ends and reports what it saw.
 var slowWaits int
@@ -133,8 +153,8 @@ func patience() time.Duration {
 func waitLive(want int) int {
 	deadline := time.Now().Add(patience())
 	for {
-		n := liveLoops()
-		if n == want {
+		n, settled := loopState()
+		if n == want && settled {
 			return n
 		}
 		if time.Now().After(deadline) {
@@ -250,12 +270,26 @@ func decodeRA(frame []byte) rvRA {
 	return ra
 }
 
+// takeRAs decodes the IPv6 frames written since the last call.  The session itself writes ARP probes for its router entry
+// when the minute ticker finds it silent for the probe deadline (behaviours with the two minute ticker): not the server's.
 func (e *rvEnv) takeRAs() []rvRA {
-	out := []rvRA{}
+	out := e.held
+	e.held = nil
+	if out == nil {
+		out = []rvRA{}
+	}
 	for _, f := range e.conn.Take() {
-		out = append(out, decodeRA(f))
+		if len(f) >= 14 && binary.BigEndian.Uint16(f[12:14]) == 0x86dd {
+			out = append(out, decodeRA(f))
+		}
 	}
 	return out
+}
+
+// countRAs moves what was written so far into the held list and returns its length.
+func (e *rvEnv) countRAs() int {
+	e.held = e.takeRAs()
+	return len(e.held)
 }
 
 func callName(panicked string, err error) string {
@@ -274,6 +308,7 @@ func (e *rvEnv) runVector(c rvCase) rvOut {
 	e.s.NICInfo.IFI.MTU = c.Cfg.MTU
 	h, _ := icmp_spoofer.New6(e.s)
 	e.conn.Take()
+	e.held = nil
 	ps, rd := c.Cfg.args()
 	var r *icmp_spoofer.RADVS
 	var err error
@@ -305,6 +340,7 @@ func (e *rvEnv) runBehaviour(c rvCase) rvOut {
 	e.s.NICInfo.IFI.MTU = 1500
 	h, _ := icmp_spoofer.New6(e.s)
 	e.conn.Take()
+	e.held = nil
 	var inst []*icmp_spoofer.RADVS
 	type pend struct {
 		step int
@@ -362,7 +398,7 @@ func (e *rvEnv) runBehaviour(c rvCase) rvOut {
 			// wait for the loops' own two minute ticker; keep the session's NIC monitor fed meanwhile
 			want = expRAs
 			deadline := time.Now().Add(135 * time.Second)
-			for e.conn.Len() < want && time.Now().Before(deadline) {
+			for e.countRAs() < want && time.Now().Before(deadline) {
 				time.Sleep(500 * time.Millisecond)
 				if int(time.Since(t0)/time.Second)%20 == 0 {
 					e.s.Parse(e.rsFrame())
